@@ -1,12 +1,142 @@
 """C14 — transfers and fees never create value."""
-from ..runner import EngineSpec, PropSpec
-from .. import gen_exec, mon_exec
+import random as _r
+import re
+
+from ..core import History
+from ..runner import EngineSpec, PropSpec, Hit
+from .. import gen_exec, gen_gov, mon_exec
 from . import register
+
+
+def gen_grants(rng, n, tier):
+    """the documented exception: a newly approved governance / audit admin is granted the genesis balance — once.  Histories in which
+    an audit administrator (bound to a non-validator node) and a governance administrator are registered (approved or rejected) and the
+    audit administrator then goes through what its life cycle offers: its node logs out (which pauses it), it is bound to another node,
+    frozen, activated, logged out; the balance of every such account is read after every governance step"""
+    hs = []
+    for _ in range(max(6, n // 12)):
+        r = _r.Random(rng.getrandbits(64))
+        g = gen_gov.LcGen(r)
+        g.tags = {"c14-grants"}
+        g.ops.append(f"world audit={r.choice([0, 1])} price=1")
+        watch = []
+
+        def bals():
+            for a in watch:
+                g.ops.append(f"q bal {a}")
+
+        def decide(ballot=None):
+            ref, kind, mod, obj = g.props[-1]
+            g.vote_all(ref, mod, obj, ballot or r.choice(["approve", "approve", "reject"]))
+            bals()
+        adm = lambda: r.choice(gen_gov.ADMINS)
+        n1, n2, aud, gov = "n6", "n5", "g3", "g1"
+        watch += [aud, gov]
+        g.fund(aud)
+        g.fund(gov)
+        bals()
+        g.submit(adm(), f"node RegisterNode s:@{n1} s:nvpNode s:~ u:0 s:nvp-{n1} s:c1 s:reason", "node-register-nvp", "node", "@" + n1)
+        decide("approve")
+        g.submit(adm(), f"node RegisterNode s:@{n2} s:nvpNode s:~ u:0 s:nvp-{n2} s:c1 s:reason", "node-register-nvp", "node", "@" + n2)
+        decide("approve")
+        g.submit(adm(), f"role RegisterRole s:@{aud} s:auditAdmin s:@{n1} s:reason", "role-register-audit", "role", "@" + aud)
+        decide(r.choice(["approve"] * 6 + ["reject"]))
+        if r.random() < 0.5:
+            g.submit(adm(), f"role RegisterRole s:@{gov} s:governanceAdmin s:~ s:reason", "role-register", "role", "@" + gov)
+            decide()
+        # the cycle the life cycle offers an audit admin: its node logs out (the admin is paused), it is bound to another node
+        cur, spare = n1, n2
+        for _cyc in range(r.choice([1, 1, 2])):
+            g.submit(adm(), f"node LogoutNode s:@{cur} s:reason", "node-logout", "node", "@" + cur)
+            decide("approve")
+            g.ops.append(f"q obj role @{aud}")
+            g.submit(adm(), f"role BindRole s:@{aud} s:@{spare} s:reason", "role-bind", "role", "@" + aud)
+            decide(r.choice(["approve", "approve", "reject"]))
+            g.ops.append(f"q obj role @{aud}")
+            g.tags.add("grant-walk:rebind")
+            cur, spare = spare, "n4"
+            if _cyc == 0 and r.random() < 0.6:
+                g.submit(adm(), f"node RegisterNode s:@n4 s:nvpNode s:~ u:0 s:nvp-n4 s:c1 s:reason", "node-register-nvp", "node", "@n4")
+                decide("approve")
+        for _ in range(r.randint(1, 4)):
+            k = r.choice(["node-logout", "bind", "bind", "freeze", "activate", "logout", "node-register"])
+            if k == "node-logout":
+                g.submit(adm(), f"node LogoutNode s:@{r.choice([n1, n2])} s:reason", "node-logout", "node", "@" + n1)
+            elif k == "bind":
+                g.submit(adm(), f"role BindRole s:@{aud} s:@{r.choice([n1, n2])} s:reason", "role-bind", "role", "@" + aud)
+            elif k == "freeze":
+                g.submit(adm(), f"role FreezeRole s:@{aud} s:reason", "role-freeze", "role", "@" + aud)
+            elif k == "activate":
+                g.submit(adm(), f"role ActivateRole s:@{aud} s:reason", "role-activate", "role", "@" + aud)
+            elif k == "logout":
+                g.submit(adm(), f"role LogoutRole s:@{r.choice([aud, gov])} s:reason", "role-logout", "role", "@" + aud)
+            else:
+                n3 = "n4"
+                g.submit(adm(), f"node RegisterNode s:@{n3} s:nvpNode s:~ u:0 s:nvp-{n3} s:c1 s:reason", "node-register-nvp", "node", "@" + n3)
+                n2 = n3
+            g.ops.append(f"q obj role @{aud}")
+            decide()
+            g.ops.append(f"q obj role @{aud}")
+            g.tags.add("grant-walk:" + k)
+        hs.append(History(g.ops, tags=g.tags))
+    return hs
+
+
+def mon_grants(h, obs):
+    """the balance of an account that is (to become) an administrator changes only by what it pays in fees, by transfers to it — and once by
+    the grant, in the block whose vote approves its REGISTRATION; every other increase is value out of nothing"""
+    hits = []
+    last = {}
+    granted = set()
+    pending_credit = {}      # account -> amount transferred to it since its last reading
+    reg_of = {}              # proposal reference -> account it registers
+    approving = None
+    for op, o in zip(h.ops, obs):
+        ws = op.split()
+        if ws[0] == "block" and len(ws) > 1 and ws[1] == "xfer":
+            try:
+                pending_credit[ws[3]] = pending_credit.get(ws[3], 0) + int(ws[4])
+            except ValueError:
+                pass
+        if ws[0] == "block" and "RegisterRole" in op:
+            m = re.search(r"bvm (\S+) role RegisterRole s:@(\S+)", op)
+            if m:
+                reg_of["pending"] = m.group(2)
+        if ws[0] == "q" and ws[1] == "prop" and "pending" in reg_of and len(ws) > 2:
+            reg_of[ws[2]] = reg_of.pop("pending")
+        if ws[0] == "block" and " gov Vote " in op and " s:approve " in op:
+            m = re.search(r"gov Vote s:(\S+) s:approve", op)
+            if m and m.group(1) in reg_of:
+                approving = reg_of[m.group(1)]
+        if ws[0] == "q" and ws[1] == "bal" and len(ws) == 3 and re.fullmatch(r"-?\d+", o or ""):
+            a, v = ws[2], int(o)
+            if a in last:
+                gain = v - last[a] - pending_credit.get(a, 0)
+                if gain > 0:
+                    if approving == a and a not in granted:
+                        granted.add(a)       # the documented grant, once
+                    else:
+                        hits.append(Hit("C14/value-created/grant-paid-again" if a in granted else "C14/value-created/grant-without-registration",
+                                        f"the balance of {a} grew by {gain} without a transfer to it and without its registration being approved in between", detail=op))
+                        break
+            last[a] = v
+            pending_credit[a] = 0
+            if approving == a:
+                approving = None
+    return hits
+
+
+def tags_grants(h, obs):
+    return {t for t in h.tags if t.startswith("grant-walk")} | {"grants"}
+
 
 register(PropSpec(
     "C14",
-    engines=[EngineSpec("exec", gen_exec.gen_fees, mon_exec.mon_c14, mon_exec.tags_c14, quick_n=250, thorough_n=6000, mask=mon_exec.mask_unmodelled)],
+    engines=[EngineSpec("exec", gen_exec.gen_fees, mon_exec.mon_c14, mon_exec.tags_c14, quick_n=250, thorough_n=6000, mask=mon_exec.mask_unmodelled),
+             EngineSpec("exec", gen_grants, mon_grants, tags_grants, quick_n=120, thorough_n=1500, mask=mon_exec.mask_unmodelled)],
     rule="exec engine: transfers with amounts 0/1/exact balance/balance+1/huge/non-numeric/negative, self-transfers, transfers to admin and "
          "contract addresses, gas prices that put the fee below/at/above the balance, mixed with failing IBTP/BVM txs; all balances observed after "
-         "every block; non-trivial = a transfer outcome or fee-failure tag; distinct = distinct op list + tag set",
+         "every block; the documented grant: histories that register audit / governance administrators and walk the audit administrator through its life cycle "
+         "(node logout, re-binding, freeze, activation, logout), the balance read after every governance step (it grows once, when the registration is approved); "
+         "non-trivial = a transfer outcome or fee-failure tag / a grant walk; distinct = distinct op list + tag set",
 ))
